@@ -456,8 +456,7 @@ func (c *Canary) handleTCP(eh *ethernet.Frame, iph *ipv4.Header, data []byte) er
 	}
 
 	if state.State == SocketSynReceived {
-		if state.SendUnacknowledged <= hdr.AckNum &&
-			hdr.AckNum <= state.SendNext {
+		if hdr.AckNum-state.SendUnacknowledged <= state.SendNext-state.SendUnacknowledged {
 			state.State = SocketEstablished
 		} else {
 			// If the segment acknowledgment is not acceptable, form a
@@ -543,8 +542,7 @@ func (c *Canary) handleTCP(eh *ethernet.Frame, iph *ipv4.Header, data []byte) er
 	// SocketEstablished
 	// If SND.UNA < SEG.ACK =< SND.NXT then, set SND.UNA <- SEG.ACK.
 
-	if state.SendUnacknowledged <= hdr.AckNum &&
-		hdr.AckNum <= state.SendNext {
+	if hdr.AckNum-state.SendUnacknowledged <= state.SendNext-state.SendUnacknowledged {
 		state.SendUnacknowledged = hdr.AckNum
 	}
 
